@@ -133,6 +133,8 @@ class Ctx:
         self.discharged = 0
         self.notes: list[str] = []
         self.findings = json.loads((VERIF / "known_findings.json").read_text())
+        for extra in sorted((VERIF / "findings").glob("*.json")) if (VERIF / "findings").is_dir() else []:
+            self.findings["findings"] += json.loads(extra.read_text()).get("findings", [])
         self._tmp = tempfile.mkdtemp(prefix="darsia-verif-")
         self.big = tier == "thorough"
 
@@ -271,8 +273,9 @@ class Ctx:
         if p.returncode != 0:
             self.mark("PROOF-BROKEN", {"leanchecker": modules, "log_tail": (p.stdout + p.stderr)[-2000:]})
 
-    def model(self, lines: list[str]) -> list[str]:
-        """Run request lines through the Lean model driver; one response per line."""
+    def model(self, lines: list[str], driver: str | None = None) -> list[str]:
+        """Run request lines through the Lean model driver Drivers/<driver>.lean; one response per line."""
+        driver = driver or self.prop
         if not lines:
             return []
         f = Path(self._tmp) / "ops.txt"
@@ -281,7 +284,7 @@ class Ctx:
             pass  # wait for any running build to finish; running the driver needs no lock
         with open(f) as fin:
             p = subprocess.run(
-                ["lake", "env", "lean", "--run", "Driver.lean"],
+                ["lake", "env", "lean", "--run", f"Drivers/{driver}.lean"],
                 cwd=LEAN, stdin=fin, capture_output=True, text=True, timeout=3000,
             )
         if p.returncode != 0:
@@ -293,10 +296,10 @@ class Ctx:
             out = (out + ["!driver-missing"] * len(lines))[: len(lines)]
         return out
 
-    def correspond(self, name: str, lines: list[str], impl: list[str], nontrivial=None) -> list[int]:
+    def correspond(self, name: str, lines: list[str], impl: list[str], nontrivial=None, driver=None) -> list[int]:
         """Diff model responses against implementation responses. Returns indices that differ."""
         assert len(lines) == len(impl)
-        got = self.model(lines)
+        got = self.model(lines, driver)
         diffs = [i for i, (a, b) in enumerate(zip(got, impl)) if a.strip() != b.strip()]
         c = self.cov.setdefault("correspondence", {})
         c[name] = {"cases": len(lines), "disagreements": len(diffs)}
